@@ -33,6 +33,15 @@ CHECKS = {
     },
 }
 CHECKS.update({
+    'C01': {
+        'text': 'The real FileTransport/PlainDevice|EnhancedDevice/DirectProtocolHandler stack runs on a virtual bus (link-time wrapped '
+                'read/write/ppoll/time): generated histories of well-formed telegrams, idle SYNs and single-edit corruptions under several '
+                'read chunkings, arrival bursts and configurations; the notifyProtocolMessage(md_recv) sequence must equal the telegram list '
+                'of an independent wire-log parser (no extra, none missing, in order).',
+        'design_ref': 'DESIGN.md section 2, C01',
+        'note': 'trusted: RefParser in harness/bus_sim.h (eBUS L2 rules), virtual time model (symbol 4.2 ms, gaps either one symbol or >= 100 ms)',
+        'technique': 'trace monitor: reference wire-log parser vs listener notifications on the real stack over a virtual bus, ASan/UBSan',
+    },
     'C05': {
         'text': 'The real DataField::read runs on every raw pattern of every 1-/2-byte type (exhaustive), all days of 2000-2099, all day '
                 'counts, boundary and random wide patterns, for several divisors and text/JSON output; an independent exact-arithmetic '
